@@ -104,6 +104,10 @@ def _extract_secrets(
                 )
             if key in (Secrets.LEASE_CANCEL, Secrets.LEASE_RENEW) and len(value) != 32:
                 raise ClientSecretsException("Lease secrets must be 32 bytes long")
+            if key in result:
+                raise ClientSecretsException(
+                    "Secret {} given more than once".format(string_key)
+                )
             result[key] = value
     except (ValueError, KeyError):
         raise ClientSecretsException("Bad header value(s): {}".format(header_values))
